@@ -1078,6 +1078,9 @@ class Expr:
             return self.operands[0]._is_nonnegative
         elif self.kind == "positive":
             return self.operands[0]._is_nonpositive
+        elif self.kind == "absolute" and self.operands[0].is_complex:
+            # signs are defined for real values only
+            return
         elif self.kind in {"sqrt", "square", "absolute"} and self.operands[0]._is_positive:
             return False
         elif self.kind in {"square", "absolute"} and self.operands[0]._is_negative:
